@@ -148,8 +148,25 @@ def ob_tablerow_new(chk, P):
         ob.absorb(ex)
 
 
+def validate_translator(chk, P):
+    """concrete windows (the shapes used by the repo's own for_block tests and a few more) through the interpreter and natively"""
+    fn = P.find(r'^fn iter_array\(')
+    ex = Executor(P, ALL_MODELS)
+    for (n, off, lim, rev) in [(4, 0, None, False), (4, 2, None, False), (4, 0, 2, False), (4, 2, 2, False), (4, 0, None, True), (4, 1, 2, True), (4, 0, 10, False), (3, 5, None, False), (5, 3, 4, False), (0, 0, None, False)]:
+        st = State()
+        vec = VecV([Opaque(f'e{k}') for k in range(n)])
+        outs = list(ex.run(fn, [vec, Some(Int(lim, 'usize')) if lim is not None else NONE, Int(off, 'usize'), Bool(rev)], st))
+        got = None
+        if len(outs) == 1 and outs[0][1] == 'ret':
+            got = ''.join(f'[{int(e.tag[1:]) + 1}]' if isinstance(e, Opaque) else '[]' for e in outs[0][2].items) or 'ELSE'
+        params = (f' limit:{lim}' if lim is not None else '') + f' offset:{off}' + (' reversed' if rev else '')
+        sc = {'kind': 'template', 'template': '{% for i in a' + params + ' %}[{{i}}]{% else %}ELSE{% endfor %}', 'globals': {'a': list(range(1, n + 1))}}
+        chk.validate(f'iter_array(len={n},offset={off},limit={lim},reversed={rev})', got, sc, lambda r: r.get('output'))
+
+
 def run(chk):
     P = chk.program(('core', 'lib'))
+    validate_translator(chk, P)
     maxlen = 6 if chk.tier == 'quick' else 9
     ob_iter_array(chk, P, maxlen)
     ob_forloop_new(chk, P)
